@@ -71,7 +71,8 @@ def truthy(st: State, v: V):
         return z3.Length(st.list_get(v).t) > 0
     if k == "dict":
         # non-emptiness of a dict is not derivable from the characteristic array alone
-        return z3.And(v.t != 0, UF("dict_nonempty", z3.IntSort(), z3.ArraySort(sort_of(dict_tys(v.ty)[0]), z3.BoolSort()), z3.BoolSort())(v.t, st.dict_get(v)[0]))
+        kq = z3.Const("k!ne", sort_of(dict_tys(v.ty)[0]))
+        return z3.And(v.t != 0, z3.Exists([kq], z3.Select(st.dict_get(v)[0], kq)))
     if k in ("set", "setv"):
         x = z3.Const("x!ne", sort_of(v.ty.args[0]))
         return z3.Exists([x], z3.Select(set_parts(st, v), x))
